@@ -269,7 +269,7 @@ def mDecode (c : CopyId) (bs : Bytes) : DecodeResult :=
   if c.v5 then V5.decode c.k maxSize bs else V4.decode c.k maxSize bs
 
 /-- well-formed in the sense of the property text (monitor precondition) -/
-def mWfSpec (c : CopyId) (p : Packet) : Bool := if c.v5 then V5.wfSpec c.k p else V4.wf c.k p
+def mWfSpec (c : CopyId) (p : Packet) : Bool := if c.v5 then V5.wf c.k p else V4.wf c.k p
 
 def mToOther (c : CopyId) (p : Packet) : Packet :=
   match c.v5, c.k with
@@ -448,9 +448,9 @@ def handler (wrong : Bool) : Handler (List (String × Nat)) where
 
 /-! ### run loop
 Same line formats as `Driver.runHandler`, but the number of printed verdict lines is capped per
-*signature* (verdict kind, tag, copy, packet kind) instead of globally: the unchanged tree
-produces thousands of lines for the few recorded findings, which must not use up the report
-budget and hide a different violation further down the stream. -/
+*signature* (verdict kind, tag, copy, packet kind) instead of globally: one defect typically
+fails thousands of generated packets of one kind, which must not use up the report budget and
+hide a different violation further down the stream. -/
 
 def signature (kind tag : String) (op : List String) : String :=
   s!"{kind}/{tag}/{op.headD ""}/{(op.drop 1).headD ""}"
